@@ -14,7 +14,7 @@ Results are written to seeded/RESULTS.json.
 import json, os, shutil, subprocess, sys, time
 
 VERIF = os.path.dirname(os.path.dirname(os.path.abspath(__file__)))
-REPO = '/repo'
+REPO = os.environ.get('SEED_BASE', '/repo')
 PY = '/venv/bin/python'
 
 
